@@ -792,3 +792,134 @@ Definition pipe_spec_violation (c : pcase) : bool :=
 Definition pipe_mismatches (h : handler_prog) (sf af : list string) (cs : list pcase) : list Z :=
   map pc_id (filter (pipe_mismatch h sf af) cs).
 Definition pipe_spec_violations (cs : list pcase) : list Z := map pc_id (filter pipe_spec_violation cs).
+
+(* ------------------------------------------------------------------------------------------ *)
+(** * 9. onEntries at column level (logs and metrics: every route except traces and profiles) *)
+
+(* where the appended values come from: the four slices handed over by the decoder *)
+Inductive lsrc := SrcMsg | SrcVal | SrcTs | SrcFillTs | SrcTypes.
+(* p.tsSpl.spl.<f> = append(p.tsSpl.spl.<f>, <src>...)   (SrcFillTs: fastFillArray(len(timestampsNS), x)...) *)
+Inductive lop := LApp (f : string) (src : lsrc).
+Definition lop_field (o : lop) : string := match o with LApp f _ => f end.
+Definition lop_src (o : lop) : lsrc := match o with LApp _ s => s end.
+
+Record entries_prog := {
+  ep_spl : list lop;            (* the appends to the samples request, in order *)
+  ep_ts : list string;          (* the fields of the time-series request appended once per announced (day, type) *)
+  ep_flush_resets : bool;       (* if spl.Size+ts.Size > 1 MiB { flush(); reset() } *)
+  ep_unknown : Z                (* statements of the append block the translator does not understand *)
+}.
+Definition on_entries_cols_model : entries_prog := {|
+  ep_spl := [LApp "MMessage" SrcMsg; LApp "MValue" SrcVal; LApp "MTimestampNS" SrcTs; LApp "MFingerprint" SrcFillTs;
+             LApp "MTTLDays" SrcFillTs; LApp "MType" SrcTypes];
+  ep_ts := ["MDate"; "MLabels"; "MFingerprint"; "MType"; "MTTLDays"];
+  ep_flush_resets := true; ep_unknown := 0
+|}.
+Definition spl_fields_model : list string := ["MFingerprint"; "MTimestampNS"; "MMessage"; "MValue"; "MTTLDays"; "MType"].
+Definition tsd_fields_model : list string := ["MDate"; "MLabels"; "MFingerprint"; "MTTLDays"; "MType"].
+
+(* one call of onEntries as the decoder makes it *)
+Record ent_ev := {
+  en_lbl_short : bool;                     (* a label pair with fewer than two strings: lbl[0] / lbl[1] panics before any append *)
+  en_ts : nat; en_msg : nat; en_val : nat; en_types : nat;    (* len(timestampsNS), len(message), len(value), len(types) *)
+  en_bad_type : bool;                      (* some types[i] >= 3: tps[t] panics (after the appends) *)
+  en_series : nat;                         (* (day, type) pairs announced by this call: rows for the time-series request *)
+  en_bytes : N                             (* what the call adds to spl.Size + ts.Size *)
+}.
+Definition src_len (e : ent_ev) (s : lsrc) : nat :=
+  match s with SrcMsg => en_msg e | SrcVal => en_val e | SrcTs | SrcFillTs => en_ts e | SrcTypes => en_types e end.
+(* the decoders' side of the contract: the four slices have one length *)
+Definition ent_consistent (e : ent_ev) : bool :=
+  Nat.eqb (en_msg e) (en_ts e) && Nat.eqb (en_val e) (en_ts e) && Nat.eqb (en_types e) (en_ts e).
+
+Record lbatch := { lb_spl : cols; lb_ts : cols; lb_size : N }.
+Definition lbatch0 (sf tf : list string) : lbatch := {| lb_spl := zero_cols sf; lb_ts := zero_cols tf; lb_size := 0 |}.
+Definition bump_by (f : string) (k : nat) (m : cols) : cols :=
+  map (fun kv => if String.eqb (fst kv) f then (fst kv, (snd kv + N.of_nat k)%N) else kv) m.
+
+Inductive lstep := LOk (b : lbatch) (sent : list lbatch) | LPanic.
+Definition on_entries_cols (p : entries_prog) (sf tf : list string) (b : lbatch) (e : ent_ev) : lstep :=
+  if en_lbl_short e then LPanic
+  else
+    let spl1 := fold_left (fun m o => bump_by (lop_field o) (src_len e (lop_src o)) m) (ep_spl p) (lb_spl b) in
+    (* for _, t := range types { tps[t] = true };  for i := range timestampsNS { .. len(message[i]) .. } *)
+    if en_bad_type e || Nat.ltb (en_msg e) (en_ts e) then LPanic
+    else
+      let ts1 := fold_left (fun m f => bump_by f (en_series e) m) (ep_ts p) (lb_ts b) in
+      let b3 := {| lb_spl := spl1; lb_ts := ts1; lb_size := (lb_size b + en_bytes e)%N |} in
+      if (MiB <? lb_size b3)%N then LOk (if ep_flush_resets p then lbatch0 sf tf else b3) [b3] else LOk b3 [].
+
+Inductive lcol_event := LcEntries (e : ent_ev) | LcPanic | LcErr (typed : bool).
+Fixpoint sent_lbatches (p : entries_prog) (sf tf : list string) (b : lbatch) (evs : list lcol_event) : list lbatch :=
+  match evs with
+  | [] => [b]                      (* doParseLogs: p.tsSpl.flush() after Decode returned nil, also when empty *)
+  | LcPanic :: _ => []
+  | LcErr _ :: _ => []
+  | LcEntries e :: rest =>
+      match on_entries_cols p sf tf b e with
+      | LPanic => []
+      | LOk b' sent => (sent ++ sent_lbatches p sf tf b' rest)%list
+      end
+  end.
+Fixpoint lcol_status (p : entries_prog) (sf tf : list string) (b : lbatch) (evs : list lcol_event) : cls :=
+  match evs with
+  | [] => C2xx
+  | LcPanic :: _ => C5xx
+  | LcErr typed :: _ => if typed then C4xx else C5xx
+  | LcEntries e :: rest =>
+      match on_entries_cols p sf tf b e with
+      | LPanic => C5xx
+      | LOk b' _ => lcol_status p sf tf b' rest
+      end
+  end.
+
+Definition lbatch_rect (b : lbatch) : bool := rectangular (lb_spl b) && rectangular (lb_ts b).
+Definition count_str (f : string) (fs : list string) : nat := List.length (filter (String.eqb f) fs).
+Definition entries_ok (p : entries_prog) (sf tf cons_s cons_t : list string) : bool :=
+  ep_flush_resets p && Z.eqb (ep_unknown p) 0
+  && nodup_str sf && nodup_str tf
+  && forallb (fun f => Nat.eqb (count_str f (map lop_field (ep_spl p))) 1) sf
+  && forallb (fun f => Nat.eqb (count_str f (ep_ts p)) 1) tf
+  && forallb (fun f => existsb (String.eqb f) sf) cons_s
+  && forallb (fun f => existsb (String.eqb f) tf) cons_t.
+Definition events_consistent (evs : list lcol_event) : bool :=
+  forallb (fun ev => match ev with LcEntries e => ent_consistent e | _ => true end) evs.
+
+(* pipefuzz, logs route *)
+Record lcase := {
+  lc_id : Z; lc_events : list ent_ev; lc_end : pend;
+  lc_outcome : outcome; lc_batches : list obatch          (* service 3 = samples, 4 = time series *)
+}.
+Definition lend_event (e : pend) : list lcol_event :=
+  match e with PendNil => [] | PendErr t => [LcErr t] | PendPanic => [LcPanic] end.
+Definition lpipe_expected (p : entries_prog) (sf tf : list string) (c : lcase) : cls * list obatch :=
+  let evs := (map LcEntries (lc_events c) ++ lend_event (lc_end c))%list in
+  let sent := sent_lbatches p sf tf (lbatch0 sf tf) evs in
+  (lcol_status p sf tf (lbatch0 sf tf) evs,
+   (map (fun b => (3%Z, map snd (lb_spl b))) sent ++ map (fun b => (4%Z, map snd (lb_ts b))) sent)%list).
+Definition lpipe_mismatch (p : entries_prog) (sf tf : list string) (c : lcase) : bool :=
+  let '(k, bs) := lpipe_expected p sf tf c in
+  negb (accepts (Exact k) (lc_outcome c) && same_batches bs (lc_batches c)).
+(* rectangularity is demanded of the observation only when the scripted decoder kept its side (equal lengths) *)
+Definition lpipe_spec_violation (c : lcase) : bool :=
+  negb (responded (lc_outcome c)
+        && (negb (forallb ent_consistent (lc_events c)) || forallb (fun ob => all_equal (snd ob)) (lc_batches c))).
+Definition lpipe_mismatches (p : entries_prog) (sf tf : list string) (cs : list lcase) : list Z :=
+  map lc_id (filter (lpipe_mismatch p sf tf) cs).
+Definition lpipe_spec_violations (cs : list lcase) : list Z := map lc_id (filter lpipe_spec_violation cs).
+
+(* call sites of onEntries whose four slices are not one-element literals: equal lengths by construction (read):
+   datadog metrics: tsNs and values are appended together per point, message/types are made with len(values);
+   Loki protobuf: tsns, msgs, values, types are all made with len(stream.GetEntries());
+   remote write (two calls): tsns, value, msg are appended together per sample, types = fastFillArray(len(tsns));
+   Loki JSON: TsNs, String, Value, Types are appended together per entry (decodeEntry) -- C03's correspondence runs it *)
+Definition entries_call_allow : list (string * string) := [
+  ("utils/unmarshal/datadogMetricsJsonUnmarshal.go", "datadogMetricsRequestDec.Decode");
+  ("utils/unmarshal/logsProtobuf.go", "logsProtoDec.Decode");
+  ("utils/unmarshal/metricsProtobuf.go", "promMetricsProtoDec.Decode");
+  ("utils/unmarshal/unmarshal.go", "pushRequestDec.Decode")
+].
+Definition entries_call_ok (c : string * string * string * string) : bool :=
+  let '(f, fn, shape, _) := c in
+  String.eqb shape "singletons" || existsb (fun a => String.eqb f (fst a) && String.eqb fn (snd a)) entries_call_allow.
+Definition entries_calls_ok (cs : list (string * string * string * string)) : bool := forallb entries_call_ok cs.
